@@ -126,10 +126,17 @@ fn c05_check(s: &mut Sink, bytes: &[u8], pos: usize, bufs: &Bufs) {
     // the last configuration registers a stack-usage calculator and a one-byte range of allowed
     // memory that lies below the packet (so that `address - range start` is meaningful for every
     // access the program makes through r1)
-    let configs: [(VmKind, usize); 6] = [(VmKind::NoData, 0), (VmKind::Raw, 1), (VmKind::Mbuff, 2), (VmKind::Raw, 3), (VmKind::Fixed(0x18, 0x08), 1), (VmKind::Fixed(0x0, 0x8), 0)];
+    // configuration 4: after loading, a set_program with an ill-formed program fails (the VM must go
+    // on running the accepted program); configuration 5: the VM held another program before
+    static ILL: [u8; 16] = [0xb7, 0, 0, 0, 0, 0, 0, 0, 0x06, 0, 0, 0, 0, 0, 0, 0];
+    let configs: [(VmKind, usize); 8] = [(VmKind::NoData, 0), (VmKind::Raw, 1), (VmKind::Mbuff, 2), (VmKind::Raw, 3), (VmKind::Fixed(0x18, 0x08), 1), (VmKind::Fixed(0x0, 0x8), 0), (VmKind::Raw, 4), (VmKind::NoData, 5)];
     for (kind, hs) in configs {
         let r = catch(|| {
+            let _reload = isaeng::ReloadGuard::new(if hs == 5 { 3 } else { 0 });
             let mut vm = AnyVm::new(kind, Some(bytes)).map_err(|e| format!("load: {e}"))?;
+            if hs == 4 && vm.set_program(&ILL, (0, 0)).is_ok() {
+                return Err("setup: an ill-formed program was accepted by set_program".to_string());
+            }
             if hs == 3 {
                 vm.set_calc(c05_calc, Box::new(()))?;
                 let lo = bufs.small.addr().min(bufs.pkt.addr());
@@ -137,10 +144,10 @@ fn c05_check(s: &mut Sink, bytes: &[u8], pos: usize, bufs: &Bufs) {
                     vm.register_allowed_memory(lo..lo + 1);
                 }
             }
-            if hs >= 1 {
+            if (1..=4).contains(&hs) {
                 vm.register_helper(1, h1)?;
             }
-            if hs >= 2 {
+            if (2..=3).contains(&hs) {
                 vm.register_helper(0x7fff_ffff, h2)?;
                 vm.register_helper(0xffff_ffff, h2)?;
             }
